@@ -317,7 +317,19 @@ __CPROVER_ensures((c) == 0 || CN(c)->t != NT_CALL || IS_BUILTIN(g_fname) || mode
 __CPROVER_ensures((c) == 0 || CN(c)->t != NT_CALL || IS_BUILTIN(g_fname) || model_last_map >= OLD(NFA) || FA[model_last_map].second.argnum != g_argc ||
                   g_k2 < 0 || g_k2 >= g_argc ||
                   (GOP(GNC - 1 - g_argc + g_k2) == OP_ARG && GPAR(GNC - 1 - g_argc + g_k2, PI_arg_target) == g_k2 &&
-                   GPAR(GNC - 1 - g_argc + g_k2, PI_arg_source) >= 0 && (unsigned long)GPAR(GNC - 1 - g_argc + g_k2, PI_arg_source) < NREG)) /*@C03,C01*/;
+                   GPAR(GNC - 1 - g_argc + g_k2, PI_arg_source) >= 0 && (unsigned long)GPAR(GNC - 1 - g_argc + g_k2, PI_arg_source) < NREG)) /*@C03,C01*/
+/* reachability of the cases (each must FAIL) */
+__CPROVER_ensures((c) != 0) /*@CANARY*/
+__CPROVER_ensures((c) == 0 || CN(c)->t != NT_NAME) /*@CANARY*/
+__CPROVER_ensures((c) == 0 || CN(c)->t != NT_NUMBER) /*@CANARY*/
+__CPROVER_ensures((c) == 0 || CN(c)->t != NT_NUMBER || CN(c)->tok._id != g_num_id || g_num_val < INT_MAX) /*@CANARY*/
+__CPROVER_ensures((c) == 0 || CN(c)->t != NT_CALL || !IS_BUILTIN(g_fname) || g_argc != 2 || n_a1_t != NT_NAME || n_a2_t != NT_NUMBER || n_a2_tok != g_num_id || g_num_val < INT_MAX) /*@CANARY*/
+__CPROVER_ensures((c) == 0 || CN(c)->t != NT_CALL || IS_BUILTIN(g_fname) || model_last_map < OLD(NFA)) /*@CANARY*/
+__CPROVER_ensures((c) == 0 || CN(c)->t != NT_CALL || IS_BUILTIN(g_fname) || model_last_map >= OLD(NFA) || FA[model_last_map].second.argnum == g_argc) /*@CANARY*/
+__CPROVER_ensures((c) == 0 || CN(c)->t != NT_CALL || IS_BUILTIN(g_fname) || model_last_map >= OLD(NFA) || FA[model_last_map].second.argnum != g_argc || g_argc != 0) /*@CANARY*/
+__CPROVER_ensures((c) == 0 || CN(c)->t != NT_CALL || IS_BUILTIN(g_fname) || model_last_map >= OLD(NFA) || FA[model_last_map].second.argnum != g_argc || g_argc != 1) /*@CANARY*/
+__CPROVER_ensures((c) == 0 || CN(c)->t != NT_CALL || IS_BUILTIN(g_fname) || model_last_map >= OLD(NFA) || FA[model_last_map].second.argnum != g_argc || g_argc != 2) /*@CANARY*/
+__CPROVER_ensures((c) == 0 || CN(c)->t == NT_NAME || CN(c)->t == NT_NUMBER || CN(c)->t == NT_CALL) /*@CANARY*/;
 
 /* ------------------------------------------------------------------ backpatch (C03: every jump lands where its label says)
  * N12 hook: every pending position is an instruction of the program whose operand, if it is a jump, is an existing label;
